@@ -36,6 +36,9 @@ pub enum Phase {
     AfterCancelledAccepts,
     /// an unknown capsule and a GREASE frame precede the terminating element
     AfterIgnorableElements,
+    /// a DRAIN_WEBTRANSPORT_SESSION capsule (0x78ae, advisory: "please wind down") precedes the
+    /// terminating element by a while; the session ends only with that element
+    AfterDrain { wait_ms: u64 },
 }
 
 #[derive(Serialize, Deserialize, Clone, Debug)]
@@ -101,7 +104,8 @@ pub fn gen_plan(seed: u64, index: usize, _tier: Tier) -> Plan {
         10 => Style::CapsuleBadUtf8,
         _ => Style::CapsuleLengthBeyondFrame,
     };
-    let phase = match rng.below(4) {
+    let phase = match rng.below(5) {
+        4 => Phase::AfterDrain { wait_ms: *rng.pick(&[0u64, 50, 2_000]) },
         0 => Phase::Idle,
         1 => Phase::WithStreams { uni: rng.usize(0, 3), bidi: rng.usize(0, 2) },
         2 => Phase::AfterCancelledAccepts,
@@ -137,6 +141,11 @@ pub fn compile(p: &Plan) -> Script {
         Phase::AfterCancelledAccepts => {
             acts.push(Act::AppCancelAccepts);
             acts.push(Act::Gap);
+        }
+        Phase::AfterDrain { wait_ms } => {
+            acts.push(Act::Write { slot: SLOT_CONNECT, hex: hex(&rc::frame(rc::FRAME_DATA, &rc::capsule(0x78ae, b""))) });
+            acts.push(Act::Gap);
+            acts.push(Act::Sleep { us: wait_ms * 1000 });
         }
         Phase::AfterIgnorableElements => {
             let mut b = rc::frame(rc::grease(11), b"ignored");
